@@ -48,6 +48,9 @@ type Scenario struct {
 	ReachTgt  int                        `json:"reach_tgt,omitempty"`
 	BarrierN  int                        `json:"barrier_n,omitempty"`
 
+	// UserCtx: the directive's context is an implementation of context.Context
+	// from outside the standard library (own Done channel).
+	UserCtx      bool   `json:"user_ctx,omitempty"`
 	FarDeadline  bool   `json:"far_deadline,omitempty"` // the directive's context carries a deadline one hour away
 	CancelBefore bool   `json:"cancel_before,omitempty"`
 	CancelOnFn   int    `json:"cancel_on_fn,omitempty"` // helper cancels once this function has started
@@ -172,6 +175,7 @@ func GenScenario(p *Program, r *Rand, exec uint64, tagName string, k int) *Scena
 		s.Conc = p.ConstConc // the directive's limit is a constant of the program
 	}
 	s.FarDeadline = exec%4 == 1
+	s.UserCtx = exec%4 == 2
 	if p.Flow != nil {
 		for i := range p.Flow.Params {
 			s.Params = append(s.Params, ParamTok(exec, i))
